@@ -23,7 +23,7 @@ THEOREMS = ["C14_build_closed", "C14_heal_closed", "C14_replace_closed", "C14_cl
             "C14_source_untouched", "C14_in_place_frame", "C14_visibility_partial", "C14_preserved_partial",
             "C14_heal_terminates", "C14_source_untouched_observe", "C14_extend_closed",
             "C14_extend_source_untouched", "C14_extend_preserved", "C14_visibility_types",
-            "C14_visibility_members", "C14_clone_preserved"]
+            "C14_visibility_members", "C14_clone_preserved", "C14_vis_preserved", "C14_camel_preserved"]
 AXIOMS_OK = []
 RUN_MODULE = "Run.C14run Schema.StoreModel Schema.StoreExtend"
 AGREE = "agree_C14"
@@ -874,6 +874,10 @@ def corpus():
                             "type NewMut { do_it(v: Int = 1): Foo }\nextend schema { mutation: NewMut }\n"
                             "extend union U = Orphan\nextend enum E { \"added\" C @deprecated }"},
                            {"op": "camel", "on": 1}, {"op": "clone", "on": 0}], decor_seed=5))
+    # camel-casing two members onto the same name: both reappear, transform_schema's validate() refuses
+    out.append(_case(W32.replace("other_field: E", "other_field: E, otherField: Int")
+                        .replace("bar(a: Int = 3, snake_arg: In)", "bar(a: Int = 3, snake_arg: In, snakeArg: Int)"),
+                     [{"op": "camel", "on": 0}, {"op": "clone", "on": 0}]))
     # visibility: hiding a type drops fields, arguments, input fields, members referring to it
     out.append(_case(W32, [dict(_NOVIS, op="vis", on=0, types=["In2", "Bar"]),
                            dict(_NOVIS, op="vis", on=1, types=["E"], inplace=True),
